@@ -260,8 +260,36 @@ mod ffi {
 """
 
 
+BYTE_SLICES = """#[diplomat::bridge]
+mod ffi {
+    #[diplomat::opaque]
+    pub struct Hasher(pub u8);
+    impl Hasher {
+        // the documented DiplomatByte alias, as the first and only slice type of the module, in both directions
+        pub fn update(&mut self, data: &[DiplomatByte]) { let _ = data; }
+        pub fn digest<'a>(&'a self) -> &'a [DiplomatByte] { &[] }
+    }
+}
+"""
+OPT_STRING_LISTS = """#[diplomat::bridge]
+mod ffi {
+    use diplomat_runtime::{DiplomatStr16Slice, DiplomatStrSlice, DiplomatUtf8StrSlice};
+    #[diplomat::opaque]
+    pub struct Matcher(pub u8);
+    impl Matcher {
+        // optional lists of strings in each of the three encodings
+        pub fn count8(&self, needles: Option<&[DiplomatStrSlice]>) -> usize { needles.map(|n| n.len()).unwrap_or(0) }
+        pub fn count16(&self, needles: Option<&[DiplomatStr16Slice]>) -> usize { needles.map(|n| n.len()).unwrap_or(0) }
+        pub fn count(&self, needles: Option<&[DiplomatUtf8StrSlice]>) -> usize { needles.map(|n| n.len()).unwrap_or(0) }
+    }
+}
+"""
+# bridges that only some backends are run on: the others reject them at lowering or hit a recorded finding (optional slice parameters in Dart)
+ONLY = {"opt_string_lists": ("c", "cpp", "nanobind")}
+
+
 def bridges():
-    return [("docs", docs_bridge()), ("docs_traits", docs_bridge(True)), ("special", special_bridge()), ("lifetimes", lifetimes_bridge()),
+    return [("byte_slices", BYTE_SLICES), ("opt_string_lists", OPT_STRING_LISTS)] + [("docs", docs_bridge()), ("docs_traits", docs_bridge(True)), ("special", special_bridge()), ("lifetimes", lifetimes_bridge()),
             ("constructors", constructors_bridge()), ("lifetimes_opt", lifetimes_opt_bridge())]
 
 
